@@ -25,8 +25,10 @@ OPC = {
 
 
 def step(prop, oid, entry, op, **kw):
-    d = dict(id=oid, prop=prop, harness=STEP, entry=entry, sources=VM_SRCS, defines={"VERIF_OP": OPC[op]},
-             replace=["vm_release"], unwind=13, object_bits=10, strength="X", timeout=900, mem_gb=10,
-             functions=["vm_core_execute[%s]" % op], min_checks=50, weight=10)
+    d = dict(id=oid, prop=prop, harness=STEP, entry=entry, sources=VM_SRCS,
+             defines={"VERIF_OP": OPC[op], "vm_release": "vm_release_real"},
+             unwind=13, object_bits=10, strength="X", timeout=900, mem_gb=10,
+             functions=["vm_core_execute[%s]" % op], min_checks=50, weight=10,
+             witness={"replayer": "vmstep"})
     d.update(kw)
     return d
